@@ -73,6 +73,10 @@ def run(F, rep, tier):
     for u in T.unknown:
         rep.ob("TEMPLATES", "ir|unanalysable|%s" % u[1], False, "lowering code the template evaluator cannot follow: %s" % (u,), u[2])
     rep.floor("TEMPLATES", "IR variants with an emission arm", len(T.S), 41)
+    # the file holds this chunk and nothing else: an output that is not truncated keeps the tail of an earlier, longer one
+    import core
+    import c20
+    core.borrow(rep, c20.atomic, lambda o: o["rule"] == "ATOMIC" and o["key"] == "output-truncated", F)
     grammar(F, rep, T)
     lvalue(F, rep, T)
     c01.irp_bracket(F, rep, T)
